@@ -139,4 +139,19 @@ CHECKS = {
             dict(name="resurrect", run="^TestResurrect$", quick=200, thorough=2000, shards=2),
         ],
     ),
+    "C19": dict(
+        pkg="c19", js_pkg="c19", level="exploration",
+        rule=("rapid state machine over a pool of blobs: one origin of length 0..64 plus derived views and slices; steps View, Slice, Set, Grow, Truncate, Len, Bytes called directly or through the blob.* helpers with arguments "
+              "from -2 to len+2 including start>end, view of view, Set from an own view and Set of a blob into itself. Model = Go byte slices in which views share the parent's backing array and Slice/Bytes are copies; after EVERY step "
+              "the Len and Bytes of every live blob are compared with the model. Out-of-range arguments must not panic, must leave every blob unchanged and (byte-slice implementation) must return an error; every call runs under a watchdog. "
+              "After a Grow/Truncate of a member of an alias group the other members are retired (aliasing across a resize is not pinned). Set whose source overflows the destination is not generated (the implementations legitimately differ). "
+              "The identical machine runs natively on blob.Bytes and under GOOS=js GOARCH=wasm with node on blob.Bytes and idbblob.Blob. non-trivial = a view of a view, a Set within one alias group, or an out-of-range call"),
+        assumptions=["node v20 + GOROOT/misc/wasm/go_js_wasm_exec run the wasm test binary", "a blob exposing only Bytes/Len is not a subject (the helper fallbacks work on copies by design)"],
+        legs=[
+            dict(name="bytes", run="^TestBytes$", quick=3000, thorough=20000, shards=8, env={"VERIF_WATCHDOG_MS": "3000"}),
+            dict(name="idb-js", run="^TestIDB$", quick=700, thorough=5000, shards=4, js=True, env={"VERIF_WATCHDOG_MS": "3000", "VERIF_LEG_SUFFIX": "-js"}, timeout_quick=300),
+            dict(name="fuzzbytes", run="^$", fuzz="^FuzzBytes$", fuzztime="40s", tiers=("thorough",), timeout_thorough=240),
+            dict(name="bytes-js", run="^TestBytes$", quick=300, thorough=3000, shards=1, js=True, env={"VERIF_WATCHDOG_MS": "3000", "VERIF_LEG_SUFFIX": "-js"}, timeout_quick=300),
+        ],
+    ),
 }
